@@ -89,6 +89,8 @@ for _f in ('Unit::parse', 'Go::parse', 'JsDoc::parse', 'JavaDoc::parse', 'HtmlPa
 RAC_FOR_FUNCTION['index_to_position'] = ['lsp_glue']
 RAC_FOR_FUNCTION['span_to_range'] = ['lsp_glue']
 RAC_FOR_FUNCTION['lex_ip_schemepart'] = ['url_scanner', 'lexers']
+RAC_FOR_FUNCTION['lex_hostport'] = ['url_scanner', 'lexers', 'lexer_literals']
+RAC_FOR_FUNCTION['lex_hex_number'] = ['lexers', 'lexer_literals', 'document_tiles']
 
 UNIT_RAC = {
     'lhs_masker': ['lhs_frontend'],
@@ -105,6 +107,7 @@ UNIT_RAC = {
     'span': [],
     'document': ['document_tiles', 'condense_indices'],
     'url': ['url_scanner', 'lexers', 'lexer_literals'],
+    'hex_number': ['lexers', 'lexer_literals', 'document_tiles'],
     'suggestion': ['suggestion_apply'],
     'overlaps': ['remove_overlaps', 'remove_indices'],
     'edit_distance': ['edit_distance'],
